@@ -171,7 +171,7 @@ func genValue(r *Rng, d *hdesc) GV {
 		n := r.Intn(20)
 		switch r.Intn(10) {
 		case 0:
-			n = r.Pick(0, 1, 127, 128, 129, 238, 239, 240, 251, 252, 253, 254, 300)
+			n = r.Pick(0, 1, 127, 128, 129, 238, 239, 240, 245, 246, 247, 248, 249, 250, 251, 252, 253, 254, 300)
 		case 1:
 			if d.sizeValid {
 				n = d.size + r.Pick(-1, 0, 0, 0, 1)
@@ -420,6 +420,13 @@ func runHelperSeqI(c *Ctx, r *Rng, h *Helper, d *hdesc, adversarial bool, tagp s
 				t.I(1)
 			} else {
 				t.I(0)
+				// what a helper stores must fit an attribute (the packet still has to encode)
+				for _, av := range p.Attributes {
+					if len(av.Attribute) > 253 {
+						c.Fail("spec", h.Pkg+"."+h.Ident, "unencodable", req.Line(""), fmt.Sprintf("a successful Add/Set left an attribute of type %d with a %d-byte value", av.Type, len(av.Attribute)), "<= 253 bytes", "Add appends one well-formed attribute; setters refuse values the attribute cannot carry")
+						break
+					}
+				}
 			}
 			tAttrs(t, p.Attributes)
 		case 2:
@@ -771,6 +778,38 @@ func init() {
 				c.Count("value-constants", h.Pkg+"."+h.Ident)
 			}
 		}
+		// VALUEs that a dictionary declares for an attribute of another package (-ref): the String() form registered by
+		// that package's init must be the dictionary's VALUE name
+		if !stage2 {
+			for _, sp := range findSpecs(c.Repo) {
+				if len(sp.Refs) == 0 {
+					continue
+				}
+				dd, err := sp.parse()
+				if err != nil {
+					continue
+				}
+				byNum := map[string]string{}
+				for _, v := range dd.Values {
+					if _, ext := sp.Refs[v.Attribute]; ext {
+						byNum[fmt.Sprintf("%s/%d", v.Attribute, v.Number)] = v.Name // later declarations override
+					}
+				}
+				for _, v := range dd.Values {
+					if _, ext := sp.Refs[v.Attribute]; !ext || byNum[fmt.Sprintf("%s/%d", v.Attribute, v.Number)] != v.Name {
+						continue
+					}
+					for _, h := range registry {
+						if h.String != nil && normName(h.Ident) == normName(v.Attribute) && !h.IsVendor {
+							if got := h.String(v.Number); got != v.Name {
+								c.Fail("spec", h.Pkg+"."+h.Ident+".String", "value-constants-external", fmt.Sprintf("%s: VALUE %s %s %d", sp.Dict, v.Attribute, v.Name, v.Number), got, v.Name, "String() forms equal the dictionary's VALUE declarations, also for VALUEs declared by another package")
+							}
+							c.Count("value-constants-external", sp.Dict+v.Name)
+						}
+					}
+				}
+			}
+		}
 		if line, open := c.KnownOpen("F9"); open {
 			// re-confirm the listed finding on its listed call site; it is printed only while it still fails
 			p := &radius.Packet{Secret: []byte("s")}
@@ -803,6 +842,6 @@ func init() {
 		// helpers freshly generated from synthetic dictionaries, compiled into a second-stage binary
 		runSynthetic(c, r, c.N(3, 16), "C12")
 		c.RequireTags("synthetic-stage", "synth:law-set")
-		c.RequireTags("bytes", "bytes+tag", "bytes+enc1", "bytes+tag+enc2", "int", "int+tag", "ip4", "ip6", "ifid", "prefix", "date", "concat", "bytes+size", "bytes+vendor", "int+vendor", "law-set", "law-refused", "value-constants", "law-strings")
+		c.RequireTags("bytes", "bytes+tag", "bytes+enc1", "bytes+tag+enc2", "int", "int+tag", "ip4", "ip6", "ifid", "prefix", "date", "concat", "bytes+size", "bytes+vendor", "int+vendor", "law-set", "law-refused", "value-constants", "value-constants-external", "law-strings")
 	}
 }
